@@ -281,11 +281,15 @@ def run_model(cfg, profile, lines, jobs=None, heavy=False):
             res.extend(o)
     return res
 
-def run_miri(cfg, lines, timeout=3000):
+def run_miri(cfg, lines, timeout=3000, target=None):
     """run cases through the harness under Miri (default Stacked Borrows aliasing model, debug profile).
     returns (outputs, ub) where ub is None or dict(index, case, message).  Supporting check only."""
     feats = "" if cfg == "none" else cfg.replace("+", ",")
-    cmd = ["cargo", "+nightly", "miri", "run", "--offline", "--quiet", "--target-dir", os.path.join("target", "miri-" + cfg)]
+    cmd = ["cargo", "+nightly", "miri", "run", "--offline", "--quiet", "--target-dir",
+           os.path.join("target", "miri-" + cfg + ("-" + target if target else ""))]
+    if target:
+        # cross-interpretation: e.g. i686 (32-bit limbs) or s390x (big-endian); Miri builds its sysroot offline
+        cmd += ["--target", target]
     if feats:
         cmd += ["--features", feats]
     if REPO != "/repo":
